@@ -34,6 +34,8 @@ Lemma hQ_hA h h' : hQ h h' -> hA h h'.
 Proof. intros (A1&A2&A3&A4&A5&A6&A7). unfold hA. split; [intros s; left; auto|]. repeat split; auto. Qed.
 Lemma hQ_scan h h' : hQ h h' -> forall t, scan h' t = scan h t.
 Proof. intros (A1&A2&A3&A4&A5&A6&A7). exact A5. Qed.
+Lemma hQ_freeh h h' : hQ h h' -> freeh h' FHp = freeh h FHp.
+Proof. intros (A1&A2&A3&A4&A5&A6&A7). exact A6. Qed.
 
 Lemma hQ_hstep_quiet h t e : qev e -> hQ h (hstep h (t, e)).
 Proof.
@@ -166,7 +168,7 @@ Section Rules.
     { destruct (flbad (hist tr)) eqn:E; auto. rewrite (flbad_mono tr _ E) in Hfl. discriminate. }
     destruct (Hi Hfl0) as (J & ND). rewrite hist_app.
     pose proof (hQ_fold_quiet t es (hist tr) Hq) as Hh. split.
-    - eapply JA_quiet; eauto using hQ_hA, hQ_scan. intros s. rewrite Hs. rewrite (ja_slot _ _ _ _ J).
+    - eapply JA_quiet; eauto using hQ_hA, hQ_scan, hQ_freeh. intros s. rewrite Hs. rewrite (ja_slot _ _ _ _ J).
       destruct Hh as (B1&_). now rewrite B1.
     - apply ndwg_app; auto. apply not_dispose_tag. intros e He. apply qev_not_dispose.
       rewrite Forall_forall in Hq. auto.
